@@ -1890,7 +1890,16 @@ pub enum ArchiveError {
 
 impl From<io::Error> for ArchiveError {
     fn from(err: io::Error) -> Self {
-        Self::Io(err)
+        // Running into the end of the file means that an offset or length
+        // stored in the archive points past its end, i.e., the archive is
+        // truncated or otherwise broken. That is not a problem with the
+        // underlying storage.
+        if err.kind() == io::ErrorKind::UnexpectedEof {
+            Self::Corrupt("unexpected end of file")
+        }
+        else {
+            Self::Io(err)
+        }
     }
 }
 
